@@ -173,6 +173,26 @@ def run(ctx):
                             viol.append((f"sa-{style}", bname, f, f"table{tbl}joined {n_join} times: {sql[-200:]}"))
                             continue
                     tally[f"sa-{style}:" + bname] += 1
+        # the SAME filter text on different root models in ONE process: the relation `ps` exists on Tag (many-to-many), O and W (two different foreign keys),
+        # `kids` / `emps` elsewhere; what was compiled for one model must not be reused for another
+        shared = ["ps/any(q: q/a gt 0)", "ps/any()", "ps/all(q: q/a ge 0)", "not ps/any(q: q/a gt 0)", "ps/any(q: q/a gt 0) and id gt 1"]
+        D_enc = rc.enc_db(db)
+        for rnd in range(2):
+            for tbl, model in (("tag", "Tag"), ("o", "O"), ("w", "W"), ("o", "O"), ("tag", "Tag")):
+                ids = [r["id"] for r in db[tbl]]
+                outs = driver.run_batch([driver.req("releval", tbl, enc(impl.real_parse_ast(f)), D_enc) for f in shared])
+                for f, o in zip(shared, outs):
+                    want = sorted(i for i, c in zip(ids, o.split(" ")) if c.lstrip("x") == "T")
+                    excl = {i for i, c in zip(ids, o.split(" ")) if c.startswith("x")}
+                    for bname, r in (("django", oc.dj_shorthand_ids(f, model)), ("sa-orm", oc.sa_shorthand_ids(f, "orm", model)), ("sa-legacy", oc.sa_shorthand_ids(f, "legacy", model))):
+                        ctx.evaluations += 1
+                        if not r.startswith("ids"):
+                            viol.append((bname, f"root {model}", f, f"raised / refused: {r[:100]}")); continue
+                        got = sorted(int(x) for x in r.split()[1:])
+                        if [i for i in got if i not in excl] != [i for i in want if i not in excl]:
+                            viol.append((bname, f"root {model} (after the same text on other models)", f, f"returned {got[:12]} but the filter denotes {want[:12]}"))
+                        else:
+                            tally[f"{bname}:shared-text:{model}"] += 1
     # host's sqlalchemy.func.* before / after importing the backend, in fresh processes
     probe, err = registry_probe()
     if probe is None:
